@@ -347,8 +347,54 @@ fn tempctr_line(line: &str) -> String {
     .join(";")
 }
 
+/// Protocol `ordkey`: the order in which the real `compile_sources` parses N modules.
+/// line `po <allocation order of the handles> <hex names ';' separated, indexed by handle>`:
+/// the module references are allocated in the given order, module k is the text
+/// `class MarkerOfModuleNumber<k> {}`; the parse order is read off the heap's call log
+/// (`Heap::verif_log`, first `AllocString` of each marker). Answer: handles in parse order.
+fn ordkey_line(line: &str) -> String {
+  let t: Vec<&str> = line.split_whitespace().collect();
+  if t.len() != 3 || t[0] != "po" {
+    return "bad-op".to_string();
+  }
+  let order: Vec<usize> = t[1].split(',').map(|x| x.parse().unwrap()).collect();
+  let names: Vec<String> = t[2].split(';').map(samverif_harness::util::unhex_str).collect();
+  let mut heap = Heap::new();
+  let mut handles: HashMap<ModuleReference, String> = HashMap::new();
+  let mut entry = None;
+  for k in &order {
+    let parts: Vec<String> = names[*k].split('.').map(|s| s.to_string()).collect();
+    let m = heap.alloc_module_reference_from_string_vec(parts);
+    entry.get_or_insert(m);
+    handles.insert(m, format!("class MarkerOfModuleNumber{k:04} {{}}\n"));
+  }
+  heap.verif_log.clear();
+  let _ = samlang_compiler::compile_sources(&mut heap, handles, vec![entry.unwrap()], false);
+  let mut seen: Vec<usize> = Vec::new();
+  for c in &heap.verif_log {
+    if let samlang_heap::verif_hooks::HeapCall::AllocString(s) = c
+      && let Some(k) = s.strip_prefix("MarkerOfModuleNumber")
+      && let Ok(k) = k.parse::<usize>()
+      && !seen.contains(&k)
+    {
+      seen.push(k);
+    }
+  }
+  seen.iter().map(|k| k.to_string()).collect::<Vec<_>>().join(",")
+}
+
 fn main() {
   std::panic::set_hook(Box::new(|_| {}));
+  if std::env::args().nth(1).as_deref() == Some("ordkey") {
+    samverif_harness::util::for_each_line(|line| {
+      let l = line.to_string();
+      match std::panic::catch_unwind(move || ordkey_line(&l)) {
+        Ok(a) => a,
+        Err(e) => format!("panic:{}", samverif_harness::util::panic_msg(&e)),
+      }
+    });
+    return;
+  }
   if std::env::args().nth(1).as_deref() == Some("tempctr") {
     samverif_harness::util::for_each_line(|line| {
       let l = line.to_string();
